@@ -314,7 +314,12 @@ extern "C" void simk_pthread_exit(void *v)
 }
 extern "C" int simk_pthread_setschedparam(pthread_t th, int pol, const struct sched_param *sp)
 {
-	if ((unsigned long)th >= TID_BASE && (unsigned long)th < TID_BASE + 4096) return 0;
+	if ((unsigned long)th >= TID_BASE && (unsigned long)th < TID_BASE + 4096) {
+		// what the kernel checks for a real thread
+		int lo = sched_get_priority_min(pol), hi = sched_get_priority_max(pol);
+		if (lo < 0 || hi < 0 || !sp || sp->sched_priority < lo || sp->sched_priority > hi) return EINVAL;
+		return 0;
+	}
 	return pthread_setschedparam(th, pol, sp);
 }
 
